@@ -87,3 +87,65 @@ def run_compile(facts, comp, sc):
     else:
         r.result = ("unreadable", repr(v)[:80])
     return r
+
+
+def run_build(facts, bp, target, with_pipeline=True, fail_export=False):
+    """build_pipeline walked by the reader for one target; select_pipeline / assign_api_bindings / the exporters are
+    stand-ins that stamp the module they are given and record the order of the calls.
+    -> dict(calls=[...], result=('Ok', CompiledPipeline fields) | ('Err', ..) | ('aborts'|'unreadable', why), ...)"""
+    ok = lambda v: I.Enum("Result", "Ok", {"0": v})
+    opt = lambda v: I.Enum("Option", "None") if v is None else I.Enum("Option", "Some", {"0": v})
+    loc = lambda s_: I.Enum("Located", None, {"node": s_, "location": I.Opaque("location")})
+
+    def deref(v):
+        return v.get() if isinstance(v, I.Ref) else v
+    calls = []
+    stages = [("Compute", 3, (8, 4, 2)), ("Pixel", 5, None), ("Task", 7, (32, 1, 1))]
+    pdef = I.Enum("PipelineDefinition", None, {
+        "name": loc("P"), "default_bind_group_index": 0,
+        "stages": [I.Enum("PipelineStage", None, {"stage": I.Enum("ShaderStage", s_), "entry_point": I.Enum("FunctionId", None, {"0": fid}),
+                                                   "thread_group_size": opt(tg)}) for s_, fid, tg in stages],
+        "graphics_pipeline_state": opt(I.Enum("GraphicsPipelineState", None, {"tag": "state of P"}))})
+    module = I.Enum("Module", None, {"root_definitions": [], "function_registry": I.Opaque("function registry"), "pipelines": [pdef]})
+
+    def stamped(m, what):
+        m = deref(m)
+        return I.Enum("Module", None, dict(m.fields, root_definitions=list(m.fields["root_definitions"]) + [what]))
+
+    def select(a):
+        nm = deref(a[1])
+        nm = nm.fields.get("node") if isinstance(nm, I.Enum) else nm
+        calls.append(("select_pipeline", nm, tuple(deref(a[0]).fields["root_definitions"])))
+        return ok(stamped(a[0], "selected " + str(nm)))
+
+    def assign(a):
+        calls.append(("assign_api_bindings", deref(a[1]), tuple(deref(a[0]).fields["root_definitions"])))
+        return stamped(a[0], "bound")
+
+    def export(name):
+        def f_(a):
+            calls.append((name, tuple(deref(a[0]).fields["root_definitions"]), a[1] if len(a) > 1 else None))
+            if fail_export:
+                return I.Enum("Result", "Err", {"0": I.Enum("GenerateError", "Failed")})
+            return ok(I.Enum("ExportedSource", None, {"source": "text from " + name, "pipeline_description": I.Enum("PipelineDescription", None, {"tag": "description from " + name})}))
+        return f_
+    ext = {"Module::select_pipeline": select, "Module::assign_api_bindings": assign, "export_to_hlsl": export("export_to_hlsl"), "export_to_msl": export("export_to_msl"),
+           "FunctionRegistry::get_function_name": lambda a: "function%d" % deref(a[1]).fields["0"], "::display": lambda a: "rendered export error",
+           "MetalCompiler::find": lambda a: I.Enum("Result", "Err", {"0": I.Enum("FindError", "NotFound")})}
+    ip = I.Interp(facts, max_depth=6, extern=ext)
+    ip.max_loop = 64
+    args = I.Enum("CompileArgs", None, {"target": I.Enum("Target", target), "support_buffer_address": False, "no_pipeline_mode": not with_pipeline, "source_info": False})
+    out = {"calls": calls, "stages": stages, "module": module}
+    try:
+        r = ip.apply(bp, [args, module, I.Opaque("source manager"), I.Enum("AssignBindingsParams", None, {"tag": "binding params"}), opt(pdef) if with_pipeline else opt(None), False])
+    except I.Unknown as e:
+        out["result"] = ("aborts" if "panicking" in str(e) else "unreadable", str(e)[:120])
+        return out
+    if isinstance(r, I.Enum) and r.variant == "Ok" and isinstance(r.fields.get("0"), I.Enum):
+        out["result"] = ("Ok", r.fields["0"].fields)
+    elif isinstance(r, I.Enum) and r.variant == "Err":
+        e0 = r.fields.get("0")
+        out["result"] = ("Err", getattr(e0, "variant", repr(e0)), e0.fields.get("0") if isinstance(e0, I.Enum) else None)
+    else:
+        out["result"] = ("unreadable", repr(r)[:80])
+    return out
